@@ -394,10 +394,14 @@ def c04_5(ck, prog):
 def c04_6(ck, prog):
     r = ck.rule('C04.6', 'names are recognised by whole-string equality: the comparators the name code relies on '
                 '(_dbus_string_equal_c_str for org.freedesktop.DBus, _dbus_string_equal) answer TRUE only when '
-                'every byte was compared and both strings are exhausted', 'TS',
+                'every byte was compared and both strings are exhausted; the name methods are reachable with the '
+                'specification\'s signatures on any object path', 'TS',
                 breaks='a proper prefix of org.freedesktop.DBus is treated as the reserved bus name: requests for '
                        'it are refused and the queries disagree about its owner', floor=2)
     lib.whole_string_equality(prog, r)
+    from rules.C18 import handler_reference
+    handler_reference(prog, r, names=('RequestName', 'ReleaseName', 'GetNameOwner', 'NameHasOwner', 'ListNames',
+                                      'ListQueuedOwners'))
 
 
 def run(ck):
